@@ -59,8 +59,10 @@ class Fragment:
         self.edits.append((a, b, self._n, kind, text, meta or {}))
 
     # ---- generic edit ops ----------------------------------------------------------------
-    def insert_at(self, off, text, label=None):
-        self._add(off, off, "ins", text, {"label": label})
+    def insert_at(self, off, text, label=None, prio=0):
+        """Insert `text` at offset `off`. Among insertions at the same offset, higher `prio` comes first (used for the opening text of
+        nested call shims: the outermost call must open first)."""
+        self._add(off, off, "ins", text, {"label": label, "prio": prio})
         return self
 
     def insert_before(self, anchor, text, occ=1):
@@ -246,7 +248,7 @@ class Fragment:
                 continue
             rs = self._receiver_start(toks, i - 1)
             sh = shim(args.strip()) if callable(shim) else shim
-            self.insert_at(rs, "%s(%s" % (sh, borrow))
+            self.insert_at(rs, "%s(%s" % (sh, borrow), prio=toks[i - 1][1])
             self.replace_span(toks[i - 1][1], toks[i + 1][2], ", " if args.strip() else "", rule,
                               why or "method call behind a shim (receiver and arguments untouched)")
             n += 1
@@ -296,7 +298,7 @@ class Fragment:
             if amp:
                 a0 = self.orig[:rs].rstrip()
                 self.replace_span(len(a0) - 1, len(a0), "", rule, "the shim returns the reference")
-            self.insert_at(rs, "%s(" % shims[kind])
+            self.insert_at(rs, "%s(" % shims[kind], prio=toks[i][1])
             self.replace_span(toks[i][1], toks[i][2], ", ", rule, why or "str range indexing behind a shim whose precondition is std's panic condition")
             self.replace_span(dd, dend, ", " if (a_txt and b_txt) else "", rule)
             self.replace_span(toks[c][1], toks[c][2], ")", rule)
@@ -573,7 +575,7 @@ class Fragment:
     # ---- rendering -----------------------------------------------------------------------
     def render(self):
         """Return (text, segs) where segs = list of (gen_off_a, gen_off_b, kind, orig_a, orig_b, meta)."""
-        edits = sorted(self.edits, key=lambda e: (e[0], 0 if e[0] == e[1] else 1, e[2]))
+        edits = sorted(self.edits, key=lambda e: (e[0], 0 if e[0] == e[1] else 1, -(e[5].get("prio", 0) or 0), e[2]))
         # check replacements do not overlap
         last_end = -1
         for a, b, n, kind, text, meta in edits:
